@@ -23,6 +23,60 @@ def _has_type_change_or_nesting(docs):
     return len(docs) >= 2
 
 
+def _gen_prio(rng, max_stages):
+    """chain/tree documents with !force/!weak on leaves or containers, at most one priority tag per path,
+    consistent shapes across stages (C03's stated domain); optional user metadata"""
+    keys = ["a", "b", "c"]
+    shape_depth = rng.choice([2, 3, 4])
+    # one fixed shape (which paths are maps / leaves), shared by all stages
+    def shape(d):
+        if d == 0 or rng.random() < 0.3:
+            return rng.choice(["leaf", "leaf", "list"])
+        return {k: shape(d - 1) for k in rng.sample(keys, rng.randint(1, 3))}
+    sh = {k: shape(shape_depth - 1) for k in rng.sample(keys, rng.randint(1, 3))}
+    def md(sd):
+        if rng.random() < 0.25:
+            sd = dict(sd); sd["form"] = "md"; sd["md"] = [[rng.choice(["m", "n"]), S.atom_of_py(rng.choice([1, 2, 3]))]]
+        return sd
+    def tagp(sd, allowed):
+        if allowed and rng.random() < 0.3:
+            pr = rng.choice([1, -1])
+            sd = dict(sd)
+            if sd["form"] == "md":
+                sd["pr"] = pr
+            else:
+                sd = S.with_tag(sd, "force" if pr == 1 else "weak")
+            return sd, False
+        return sd, allowed
+    def inst(s, allowed):
+        if s == "leaf":
+            sd, _ = tagp(md(S.leaf(rng.choice([1, 2, 3, "x", None, 0]))), allowed)
+            return sd
+        if s == "list":
+            sd, _ = tagp(md(S.sequence([S.leaf(rng.choice([1, 2, 3])) for _ in range(rng.randint(0, 3))])), allowed)
+            return sd
+        ks = [k for k in s if rng.random() < 0.7]
+        node, allowed2 = tagp(md(S.mapping([])), allowed)
+        node = dict(node)
+        node["ch"] = [[S.key_of_py(k), inst(s[k], allowed2)] for k in ks]
+        return node
+    n = rng.randint(2, max_stages)
+    return [inst(sh, True) for _ in range(n)], [True] * n
+
+
+def _c03_nontrivial(docs):
+    def prs(sd, acc):
+        if sd["pr"] != 9:
+            acc.add(sd["pr"])
+        for _, c in sd["ch"]:
+            prs(c, acc)
+        return acc
+    s = set()
+    for d in docs:
+        prs(d, s)
+    return len(docs) >= 2 and len(s) >= 1
+
+
 BUILDER = {
     "C02": {
         "invariants": ["Inv_C02", "Inv_C02_NoKeyLost", "Inv_C02_Frame"],
@@ -36,6 +90,21 @@ BUILDER = {
                 "maps, lists, scalars, empty containers) replayed through Builder, outcome after every stage compared; "
                 "B: seeded random tag-free histories (depth<=4, up to 6 stages) recorded and validated by TLC. "
                 "non-trivial = history of >= 2 documents; distinct by document content",
+    },
+    "C03": {
+        "invariants": ["Inv_C03"],
+        "exh": {"quick": [("C03_Docs", 2, 2), ("C03_DocsMd", 2, 2), ("C03_Docs3", 3, 3), ("C03_DocsMdS", 3, 3)],
+                "thorough": [("C03_Docs2", 2, 2), ("C03_DocsMd", 2, 3), ("C03_Docs3", 3, 3), ("C03_DocsMdS", 3, 4)]},
+        "mutations": [{"switch": "ShallowPriority", "docs": "C03_Docs", "stages": (2, 2), "expect": ["Inv_C03"]},
+                      {"mutation": "PriorityGE", "docs": "C03_Docs", "stages": (2, 2), "expect": ["Inv_C03"]},
+                      {"mutation": "MdSpreadSwapped", "docs": "C03_DocsMd", "stages": (2, 2), "expect": ["Inv_C03"]}],
+        "witness": "C03_Witness",
+        "gen": _gen_prio, "random": {"quick": 1500, "thorough": 30000}, "max_stages": 5,
+        "nontrivial": _c03_nontrivial,
+        "rule": "A: every 2-3 stage history over chain-shaped mapping documents of depth<=3 with !force/!weak/none on any one "
+                "node per path, atomic lists, and one user-metadata key per node (universes named in configs); B: seeded random "
+                "histories (2-5 stages, depth<=4, 3 keys per level, consistent shapes). non-trivial = >=2 stages and at least one "
+                "priority tag; distinct by document content",
     },
 }
 
@@ -69,4 +138,12 @@ META = {
                     "specification rejects.",
             "note": _BUILDER_NOTE},
 }
+META["C03"] = {"engine": "builder-family", "design_ref": "DESIGN.md 5/C03",
+    "technique": "TLC model checking of AyBuild + trace validation / behaviour replay against the library",
+    "text": "TLC checks on the merge specification (flags, priority push-down, leaf rule, _replace_self/_replace_other metadata "
+            "spreads) that at every path the value of the highest-priority, latest writer survives and that metadata keys are "
+            "never lost and the winner's values kept (Inv_C03, stated over the surface documents), for every 2-3 stage history of "
+            "the bounded universes; behaviours replayed through Builder; recorded deeper histories validated by TLC with the formula "
+            "on logged outcomes; mutation cfgs ShallowPriority / PriorityGE / MdSpreadSwapped must be refuted.",
+    "note": _BUILDER_NOTE + "; domain narrowed as DESIGN 5/C03 states (no mapping<->leaf change at a path, one priority tag per path, atomic lists)"}
 NOT_APPLICABLE = {}
